@@ -240,7 +240,7 @@ func diffKind(d string) string {
 var (
 	c12BigNicks = []string{"me", "a", "b", "c", "d", "e", "f", "g", "", "A", "Me", "B"} // incl. names differing only in letter case
 	c12BigChans = []string{"#1", "#2", "#3", "&4", "#5", "", "#A", "#a"}
-	c12Modes    = []string{"+o", "-o", "+ov", "+v", "-v", "+q", "+a", "+h", "-h", "+k", "-k", "+l", "-l", "+kl", "+s-s", "o", "+Xy", "+ntsk", "+imnprstzZO", "-imnprstzZO", "+lk", "+o-o", "-qaohv", "+", ""}
+	c12Modes    = []string{"+o", "-o", "+ov", "+v", "-v", "+q", "+a", "+h", "-h", "+k", "-k", "+l", "-l", "+kl", "+s-s", "o", "+Xy", "+ntsk", "+imnprstzZO", "-imnprstzZO", "+lk", "+o-o", "-qaohv", "+", "", "+b", "-b", "+bb", "+b-b", "+be", "+I"}
 	c12NModes   = []string{"+i", "-i", "+Biowxz", "-Biowxz", "o", "+w-w", "+Q", ""}
 	c12Texts    = []string{"", "t1", "another text"}
 )
@@ -299,7 +299,7 @@ func c12RandOp(r interface{ Intn(int) int }, m *model.TModel) model.TOp {
 			case 0:
 				a = append(a, existingNick())
 			case 1:
-				a = append(a, []string{"key", "17", "x", "-3"}[r.Intn(4)])
+				a = append(a, []string{"key", "17", "x", "-3", "*!*@host", "a!*@*"}[r.Intn(6)])
 			default:
 				a = append(a, pn())
 			}
